@@ -193,7 +193,8 @@ Memb(st) == <<[i \in 1..Len(st.players) |-> <<st.players[i].id, st.players[i].se
               st.seatmap, st.sm.seat>>
 C03_errorUnchanged(t) == t.ev \in MemberEvs /\ t.res # "ok" /\ Len(t.pre) = 1 => Memb(t.pre[1]) = Memb(t.st)
 C03_reserveAccepted(t) ==
-  t.ev = "ret:PlayerReserve" /\ Len(t.pre) = 1 =>
+  \* (through a manager, a table that has been released is gone: the refusal is the manager's, judged by the C17 clauses)
+  t.ev = "ret:PlayerReserve" /\ Len(t.pre) = 1 /\ t.res # "ErrManagerTableNotFound" =>
     LET pre == t.pre[1] IN
     (/\ t.a.id \notin Ids(pre) /\ Len(pre.players) < pre.nseat /\ C03_bijection(pre) /\ C03_smAgree(pre)
      /\ \/ t.a.seat = -1
